@@ -62,21 +62,22 @@ def light_decor(genes: list[dict], level: int) -> None:
         genes[0].setdefault("a", []).append("T")
 
 
-def anchor_ranges(circular: int, width: int = 1, upto: int = 5) -> list[list[str]]:
+def anchor_ranges(circular: int, width: int = 1, upto: int = 5, wrap: bool = True) -> list[list[str]]:
     out = []
     for i in range(upto + 1):
         for span in range(width + 1):
             j = i + span
             if j <= upto:
                 out.append([f"g{k}" for k in range(i, j + 1)])
-    if circular and upto == 5:
+    if circular and wrap:
         out.append(["g5", "g0"])
     return out
 
 
-def rule_options(circular: int, width: int = 1, upto: int = 5, nbs: list | None = None) -> list[dict]:
+def rule_options(circular: int, width: int = 1, upto: int = 5, nbs: list | None = None,
+                 wrap: bool = True) -> list[dict]:
     out = []
-    for anchors in anchor_ranges(circular, width, upto):
+    for anchors in anchor_ranges(circular, width, upto, wrap):
         for nb, cut in (nbs or NBS):
             out.append({"anchors": anchors, "nb": nb, "cut": cut})
     return out
@@ -105,6 +106,8 @@ def make(name: str, rules: list[dict], subs: list[dict] | None = None, decor: in
 
 
 LAYOUTS = ["LI", "LE", "CI", "CO"]
+EDGE_LAYOUTS = ["LE", "CO"]
+WIDE = [(0, 15), (45, 10)]
 
 
 def family_a1(tier: str) -> Iterator[dict]:
@@ -115,21 +118,24 @@ def family_a1(tier: str) -> Iterator[dict]:
 
 
 def family_a2(tier: str) -> Iterator[dict]:
-    for name in LAYOUTS:
+    for name in (LAYOUTS if tier == "thorough" else EDGE_LAYOUTS):
         circular, _ = layout(name)
-        options = rule_options(circular, width=2 if tier == "thorough" else 1)
+        if tier == "thorough":
+            options = rule_options(circular, width=2)
+        else:
+            options = rule_options(circular, width=1, upto=2)
         for first, second in itertools.combinations_with_replacement(options, 2):
             yield make(name, with_products([first, second]), fam="A2")
 
 
 def family_a3(tier: str) -> Iterator[dict]:
-    names = LAYOUTS if tier == "thorough" else ["LE", "CO"]
-    for name in names:
+    for name in (LAYOUTS if tier == "thorough" else EDGE_LAYOUTS):
         circular, _ = layout(name)
         if tier == "thorough":
             options = rule_options(circular, width=1, upto=4)
         else:
-            options = rule_options(circular, width=1, upto=3, nbs=[(0, 15), (45, 10)])
+            options = [o for o in rule_options(circular, width=1, upto=2, nbs=WIDE, wrap=False)
+                       if o["anchors"] != ["g2"]]
         for combo in itertools.combinations_with_replacement(options, 3):
             yield make(name, with_products(combo), fam="A3")
 
@@ -143,35 +149,49 @@ def sub_options(circular: int) -> list[list[dict]]:
         [dict(cassis, p=[[300, 360]])],                       # touches the end
         [dict(cassis, p=[[105, 195]]), {"tool": "other", "label": "", "p": [[105, 195]]}],   # twins
         [dict(cassis, p=[[105, 195]]), {"tool": "verif-tool", "label": "ext", "p": [[135, 225]], "side": 1}],
-        [{"tool": "verif-tool", "label": "ext label", "p": [[200, 260]], "side": 1}],
+        [{"tool": "verif-tool", "label": "ext label", "p": [[200, 260]], "side": 1}],   # cuts a gene
         [dict(cassis, p=[[0, 360]])],                         # whole record
+        [dict(cassis, p=[[0, 60]]), dict(cassis, p=[[120, 210]], label="g3"),
+         {"tool": "verif-tool", "label": "third", "p": [[300, 360]], "side": 1}],      # three regions
     ]
     if circular:
         out.append([dict(cassis, p=[[330, 360], [0, 45]])])   # over the origin
         out.append([{"tool": "verif-tool", "label": "x", "p": [[300, 360], [0, 20]], "side": 1}])
+        out.append([dict(cassis, p=[[350, 360], [0, 100]])])  # cuts an origin-spanning gene
+        out.append([dict(cassis, p=[[300, 360], [0, 10]])])   # cuts an origin-spanning gene
+        out.append([dict(cassis, p=[[300, 360], [0, 230]])])  # most of the record, prepeptide after the origin
     return out
 
 
 def family_as(tier: str) -> Iterator[dict]:
     for name in LAYOUTS:
         circular, _ = layout(name)
+        if tier == "thorough":
+            options = rule_options(circular, width=1)
+        else:
+            options = [o for o in rule_options(circular, width=0, nbs=[(15, 20)], wrap=False)
+                       if o["anchors"][0] in ("g0", "g2", "g5")]
         for subs in sub_options(circular):
             yield make(name, [], subs=subs, fam="AS")
-            for option in rule_options(circular, width=1):
+            for option in options:
                 yield make(name, with_products([option]), subs=subs, fam="AS")
     # subregion with exactly the coordinates of the protocluster / candidate cluster
     for name in LAYOUTS:
         circular, _ = layout(name)
-        for option in rule_options(circular, width=1):
+        for option in (rule_options(circular, width=1) if tier == "thorough"
+                       else rule_options(circular, width=0, nbs=WIDE, wrap=False)):
             yield make(name, with_products([option]), fam="AS", sub_like_rule=1)
 
 
 def family_ax(tier: str) -> Iterator[dict]:
-    for name in LAYOUTS:
+    for name in (LAYOUTS if tier == "thorough" else EDGE_LAYOUTS):
         circular, _ = layout(name)
-        options = rule_options(circular, width=1, upto=5 if tier == "thorough" else 3,
-                               nbs=[(0, 15), (15, 20), (45, 10)])
-        for option in options:
+        if tier == "thorough":
+            singles = options = rule_options(circular, width=1)
+        else:
+            singles = rule_options(circular, width=1, upto=3)
+            options = rule_options(circular, width=1, upto=2, nbs=WIDE)
+        for option in singles:
             yield make(name, with_products([option], side=(0,)), fam="AX")
         for first, second in itertools.product(options, repeat=2):
             yield make(name, with_products([first, second], side=(1,)), fam="AX")
@@ -228,6 +248,8 @@ def family_b(tier: str) -> Iterator[dict]:
     for label, circular, focus in focus_shapes():
         for deco_label, deco in DECORATIONS:
             for anchored in (1, 0):
+                if not anchored and tier != "thorough" and deco_label not in ("none", "F", "D", "R2", "all"):
+                    continue
                 genes = []
                 occupied = {pos for start, end in focus["p"] for pos in range(start, end)}
                 for k in range(6):
@@ -285,3 +307,87 @@ def all_specs(tier: str) -> list[dict]:
         for spec in family(tier):
             specs.append(spec)
     return specs
+
+
+# --- thorough only: seeded random mixtures -------------------------------------------------------
+
+def random_spec(rng: Any) -> dict:
+    """ a random record: gene positions/lengths/strands/exons off the raster, random decorations,
+        1-4 rules over random contiguous anchors with random neighbourhoods, random subregions """
+    # pylint: disable=too-many-locals,too-many-branches
+    length = rng.choice([240, 300, 360, 399])
+    circular = rng.random() < 0.5
+    genes: list[dict] = []
+    position = rng.randrange(0, 20)
+    index = 0
+    if circular and rng.random() < 0.5:
+        tail, head = 3 * rng.randrange(2, 8), 3 * rng.randrange(2, 8)
+        if rng.random() < 0.5:
+            genes.append({"n": "g0", "p": [[length - tail, length], [0, head]], "s": 1})
+        else:
+            genes.append({"n": "g0", "p": [[0, head], [length - tail, length]], "s": -1})
+        position = head + rng.randrange(3, 30)
+        index = 1
+        limit = length - tail - 3
+    else:
+        limit = length
+    while True:
+        size = 3 * rng.randrange(6, 21)
+        if position + size > limit:
+            break
+        strand = rng.choice([1, -1])
+        gene = {"n": f"g{index}", "s": strand, "p": [[position, position + size]]}
+        if size >= 36 and rng.random() < 0.3:
+            cut = position + 3 * rng.randrange(2, size // 3 - 4)
+            gap = rng.randrange(3, 9)
+            parts = [[position, cut], [cut + gap, position + size]]
+            gene["p"] = parts if strand == 1 else parts[::-1]
+        genes.append(gene)
+        index += 1
+        position += size + rng.choice([0, 0, 3, 10, 25, 40])
+    if len(genes) < 2:
+        return random_spec(rng)
+    if not circular and rng.random() < 0.3:
+        first = genes[0]
+        if first["s"] == 1 and len(first["p"]) == 1:
+            first["p"] = [[0, first["p"][0][1]]]
+            first["cs"] = rng.choice([1, 2, 3])
+            first["fz"] = 1
+    codes = ["F", "f", "N", "P", "T", "D", "R0", "R1", "R2"]
+    for gene in genes:
+        gene["g"] = int(rng.random() < 0.4)
+        gene["note"] = int(rng.random() < 0.3)
+        if rng.random() < 0.6:
+            chosen = rng.sample(codes, rng.randrange(1, 4))
+            if sum(code.startswith("R") for code in chosen) > 1:
+                chosen = [code for code in chosen if not code.startswith("R")] + ["R1"]
+            gene["a"] = chosen
+    rules = []
+    for i in range(rng.randrange(0, 5)):
+        first = rng.randrange(len(genes))
+        last = min(len(genes) - 1, first + rng.choice([0, 0, 1, 2]))
+        product, category = PRODUCTS[i % len(PRODUCTS)]
+        rule = {"anchors": [g["n"] for g in genes[first:last + 1]], "nb": rng.choice([0, 5, 20, 40, 90]),
+                "cut": rng.choice([5, 20, 50]), "prod": product if i < 3 else f"other{i}", "cat": category}
+        if rng.random() < 0.2:
+            rule["side"] = 1
+            rule["prod"] = f"side{i}"
+        elif rng.random() < 0.15:
+            rule["t2"] = 1
+        rules.append(rule)
+    subs = []
+    for i in range(rng.choice([0, 0, 1, 1, 2])):
+        start = rng.randrange(0, length - 30)
+        end = rng.randrange(start + 20, length + 1)
+        parts = [[start, end]]
+        if circular and rng.random() < 0.3:
+            parts = [[rng.randrange(length // 2, length - 5), length], [0, rng.randrange(5, length // 2)]]
+        if rng.random() < 0.4:
+            subs.append({"p": parts, "tool": "verif-tool", "label": f"ext{i}", "side": 1})
+        else:
+            subs.append({"p": parts, "tool": rng.choice(["cassis", "other"]), "label": rng.choice(["", genes[0]["n"]])})
+    if not rules and not subs:
+        subs.append({"p": [[0, length // 2]], "tool": "cassis", "label": ""})
+    misc = [code for code in ("tta", "tfbs", "inmisc", "extmotif") if rng.random() < 0.25]
+    return {"fam": "R", "lay": "random", "L": length, "circ": int(circular), "seed": rng.randrange(1000),
+            "genes": genes, "rules": rules, "subs": subs, "misc": misc}
